@@ -154,6 +154,6 @@ def run(ctx, tier):
         explanation=(
             'Decides the ROUTING of reads, not what the cursor then does with them: (overlay-first) the overlay lookup returns the mapped page only when the page -> node map has no '
             'materialised node; (read-via-overlay) every function reachable (constant-bool specialised) from the public read API dereferences mapped pages only inside the overlay lookup; '
-            '(reresolve) cursors hold ids and indices only, never a page or node; (single-root) bucket views are built from the committed header root only at begin; (range-start-compare) a range start is decided by comparing the current entry's key, not by position (branch keys are stale inside a write transaction). NOT decided: the '
+            '(reresolve) cursors hold ids and indices only, never a page or node; (single-root) bucket views are built from the committed header root only at begin; (range-start-compare) a range start is decided by comparing the key of the current entry, not by position (branch keys are stale inside a write transaction). NOT decided: the '
             'cursor\'s treatment of emptied leaves (known early-stop defect), which entries come back.'),
         assumptions=[])
